@@ -54,6 +54,7 @@ fn build<'a>(t: &'a TextItem<C>, font: &'a MonoFont<'a>) -> Text<'a, MonoTextSty
 fn layout(d: &mut Dec, cx: &mut Cx, spaced: bool) -> Res {
     let mut item = gen_text::<C>(d, 30, 12);
     item.pos += crate::gen::far_offset(d);
+    item.spacing = 0; // this sub-check sets the spacing itself (`spaced`)
     // strings with CR LF in this property are generated as LF and converted below
     item.text = item.text.replace("\r\n", "\n");
     let with_crlf = d.ratio(1, 3);
@@ -170,6 +171,7 @@ fn layout(d: &mut Dec, cx: &mut Cx, spaced: bool) -> Res {
 /// boxes, extents and positions only (no pixel maps).
 fn very_long_lines(d: &mut Dec, cx: &mut Cx) -> Res {
     let mut item = gen_text::<C>(d, 20, 4);
+    item.spacing = 0;
     let font = item.font();
     let (cw, ch) = (font.character_size.width as i32, font.character_size.height as i32);
     let target = d.pick(&[32_768, 65_536, 65_536, 65_536]) + d.i(-70, 400);
@@ -227,7 +229,8 @@ fn very_long_lines(d: &mut Dec, cx: &mut Cx) -> Res {
     let next = text.draw(&mut t).map_err(|e| Fail { sig: "long_line:draw_error".into(), detail: format!("{:?}", e) })?;
     if let (Some(min), Some(max)) = (t.min, t.max) {
         ensure!(min.x >= bl && max.x <= br, "long_line:drawn_outside_box", "drawn extent x = {}..={} is not inside the bounding box {}..={}", min.x, max.x, bl, br);
-        let paints_all_columns = item.background.is_some() || (!item.underline.is_none() && (item.text_color.is_some() || matches!(item.underline, embedded_graphics::text::DecorationColor::Custom(_))));
+        // (a background alone does not paint the 'on' pixels of a glyph: a glyph column may stay untouched)
+        let paints_all_columns = (item.background.is_some() && item.text_color.is_some()) || (!item.underline.is_none() && (item.text_color.is_some() || matches!(item.underline, embedded_graphics::text::DecorationColor::Custom(_))));
         if paints_all_columns {
             ensure!(min.x == bl && max.x == br, "long_line:drawn_extent", "every column is painted (background or underline) but the drawn extent is x = {}..={}, the box {}..={}", min.x, max.x, bl, br);
         }
